@@ -423,6 +423,9 @@ func (w *world) verdict1(l *lastRec) string {
 			if b.done {
 				return "FAIL not-stopped-by-cancel"
 			}
+			if l.real < 0 {
+				return "FAIL negative-sleep " + strconv.Itoa(l.real)
+			}
 			if budgetExceeded(b, l.cfg.name) {
 				return "FAIL slept-over-budget"
 			}
@@ -1150,6 +1153,47 @@ func (g *gen) excludedCase(n int, real bool) {
 	g.do(fmt.Sprintf("p-budget 0 %d", g.maxCap))
 }
 
+// longRunCase: up to `steps` back-offs of ONE kind on ONE back-offer without Reset, with a budget that cannot stop the
+// run earlier (huge, or switched off), so that the closure's attempt counter goes far beyond the point where base*2^n
+// leaves the 64-bit range; every step is judged (p-last: sleep within [0, cap] / the jitter interval, accounting = Σ of
+// the observed sleeps, exhaustion exactly when the ledger says) and p-budget runs every few steps.
+func (g *gen) longRunCase(n int, ident string, custom string, steps int) {
+	g.run.Comment("case " + strconv.Itoa(n))
+	g.do("reset")
+	g.idents = nil
+	if custom != "" {
+		g.do(custom)
+	}
+	ci := w.findCfg(ident)
+	g.maxCap = ci.cap
+	switch g.r.Intn(4) {
+	case 0:
+		g.do("new plain 1073741824")
+	case 1:
+		g.do("new vars 1073741823 10 2")
+	case 2:
+		g.do("new vars 0 100 1") // budget check switched off
+	default:
+		g.do("new nil 1073741823")
+	}
+	for i := 0; i < steps; i++ {
+		m := -1
+		if g.r.Chance(10) {
+			m = []int{0, 5, 100000}[g.r.Intn(3)]
+		}
+		res := g.do(fmt.Sprintf("bo 0 %s %d 0 -", ident, m))
+		v := g.do("p-last")
+		if i%8 == 7 {
+			g.do(fmt.Sprintf("p-budget 0 %d", g.maxCap))
+		}
+		if res == "panic" || strings.HasPrefix(v, "FAIL") || strings.HasPrefix(res, "exceeded") {
+			break
+		}
+	}
+	g.do("st 0")
+	g.do(fmt.Sprintf("p-budget 0 %d", g.maxCap))
+}
+
 // resetCase: excluded-kind back-offs, then Reset / ResetMaxSleep, then ordinary back-offs until the budget is exhausted
 // (on the reset back-offer itself or on a clone / fork of it): the stage after the reset must start from zero in BOTH
 // counters.
@@ -1247,6 +1291,17 @@ func main() {
 	if run.Thorough() {
 		cases, maxLen = 600, 400
 	}
+	// long same-kind runs: every row of the table (the `table` op ties the rows to the regenerated facts), plus the two
+	// jitter kinds no row uses
+	longSteps := 80
+	if run.Thorough() {
+		longSteps = 130
+	}
+	for i, ci := range tableCfgs {
+		g.longRunCase(cases+i, ci.ident, "", longSteps)
+	}
+	g.longRunCase(cases+len(tableCfgs), "x0", "defcfg x0 x0 2 5000 2", longSteps)
+	g.longRunCase(cases+len(tableCfgs)+1, "x0", "defcfg x0 x0 2 5000 4", longSteps)
 	for n := 0; n < cases; n++ {
 		l := maxLen
 		if n%3 == 0 {
